@@ -40,7 +40,14 @@ TRUSTED_MACROS = ("tokio::try_join", "tokio::select", "tokio::join", "async_trai
 PANIC_CALLS = ("Option::<T>::unwrap", "Option::<T>::expect", "Result::<T, E>::unwrap", "Result::<T, E>::expect", "Index::index", "IndexMut::index_mut", "RefCell::<T>::borrow_mut", "RefCell::<T>::borrow",
                "BytesMut::split_to", "BytesMut::split_off", "Bytes::split_to", "Bytes::split_off", "slice::<impl [T]>::split_at", "BytesMut::advance",
                "Buf::advance", "str::<impl str>::split_at", "Vec::<T, A>::remove", "Vec::<T, A>::swap_remove", "Vec::<T, A>::drain",
-               "char::from_digit", "Duration::from_secs_f64", "Layout::from_size_align_unchecked")
+               "char::from_digit", "Duration::from_secs_f64", "Layout::from_size_align_unchecked",
+               # arithmetic on time values panics on overflow (`UNIX_EPOCH + Duration::from_secs(u64::MAX)`) in every build profile
+               "SystemTime as std::ops::Add<std::time::Duration>>::add", "SystemTime as std::ops::Sub<std::time::Duration>>::sub",
+               "Instant as std::ops::Add<std::time::Duration>>::add", "Instant as std::ops::Sub<std::time::Duration>>::sub",
+               "Duration as std::ops::Add>::add", "Duration as std::ops::Sub>::sub", "Duration as std::ops::Mul<u32>>::mul",
+               "SystemTime as std::ops::AddAssign<std::time::Duration>>::add_assign", "Instant as std::ops::AddAssign<std::time::Duration>>::add_assign",
+               "Duration::from_secs_f32", "String::truncate", "String::remove", "String::insert", "String::split_off", "String::drain", "String::replace_range",
+               "str::<impl str>::split_at_mut", "Vec::<T, A>::insert", "Vec::<T, A>::split_off", "Vec::<T, A>::swap")
 CONSUMING = ("NsReader::<&'i [u8]>::read_resolved_event", "NsReader::<R>::read_resolved_event", "NsReader::<&'i [u8]>::read_event", "read_to_end",
              "NsReader::<&'i [u8]>::read_text", "Iterator::next", "read_event_into")
 
